@@ -124,6 +124,11 @@ def _conc_arith(op, a, b):
             r = Fraction(f).limit_denominator(10 ** 12)
             if r ** b.denominator == Fraction(a) ** b.numerator:
                 return r
+            # irrational: the same rendering as the uninterpreted sqrt / pow applied to concrete arguments
+            from . import npvec
+            if b == Fraction(1, 2):
+                return npvec.uf('sqrt', a)
+            return npvec.uf('pow', a, b)
         raise OutOfSubset('irrational concrete power')
     raise OutOfSubset(op)
 
